@@ -470,6 +470,7 @@ func (f *forced) advance(i int) {
 // runForced realises a schedule on the real code. choose picks among the
 // enabled actors at every decision point.
 func runForced(sc *Scenario, choose func(depth int, enabled []int) int) *Outcome {
+	progress(sc)
 	n := len(sc.Actors)
 	o := &Outcome{Res: make([]string, n), afterClose: make([]bool, n)}
 	r, err := newRig(sc.DLSup, sc.Recv)
